@@ -241,6 +241,7 @@ class LazyList:
                 vy_print(" | " if ctx.vyxal_lists else ", ", "", ctx=ctx)
         except StopIteration:
             vy_print(" ⟩" if ctx.vyxal_lists else "]", end, ctx=ctx)
+        ctx.stacks.pop()
 
     @lazylist
     def reversed(self):
